@@ -36,9 +36,12 @@ inductive Out (α : Type) where
   | panic
   deriving DecidableEq, Repr
 
-/-- Which of the repairs proposed in /verif/proposed-fixes/C19-*.diff the code under test carries.
-The harness probes the real code for each flag and drives the model with the matching value, so
-the model follows the code; the theorems are stated for both values of every flag. -/
+/-- Which of the four repairs of the padding/sharding layer the code under test carries. All four
+are in /repo since the commits a2bceaf (rootFromPresent), 32710c6 (unpadGuard), 8f80b72
+(shardingLeafProto) and d76716c (nonceSet): the tree is `Cfg.current`. The flags stay because the
+harness probes the real code for each of them and drives the model with the value it finds — if
+one of the repairs is ever lost the model follows, the correspondence stays clean and the
+property oracle reports the violation; the theorems say what holds for either value. -/
 structure Cfg where
   /-- UnpadMessage compares `msgLen` with `len(padded) - varintLen` (no `uint64` overflow). -/
   unpadGuard : Bool
@@ -47,17 +50,19 @@ structure Cfg where
   /-- sharding.go commits to `ShardData{shard}.MarshalProto()` (what UnitValidator verifies against)
   instead of the raw shard bytes. -/
   shardingLeafProto : Bool
-  /-- UnitValidator.verifyDataShards uses `unit.ShardData.MarshalProto()` as leaf (true in the
-  pinned tree). -/
+  /-- UnitValidator.verifyDataShards uses `unit.ShardData.MarshalProto()` as leaf (always true
+  so far). -/
   validatorLeafProto : Bool
   /-- CreatePropellerUnits stores the nonce it signed in `Unit.Nonce`. -/
   nonceSet : Bool
   deriving DecidableEq, Repr
 
-/-- The pinned tree (commit 0308209). -/
+/-- The snapshot 0308209, before the four repairs (kept for the regression theorems). -/
 def Cfg.pinned : Cfg := ⟨false, false, false, true, false⟩
-/-- The tree with all four proposed fixes applied. -/
+/-- All four repairs. -/
 def Cfg.repaired : Cfg := ⟨true, true, true, true, true⟩
+/-- /repo as of 8f80b72. -/
+def Cfg.current : Cfg := Cfg.repaired
 
 /-! ## encoding/binary: PutUvarint / Uvarint -/
 
@@ -108,10 +113,10 @@ def pad (msg : Bytes) (k : Nat) : Bytes :=
 def padGo (msg : Bytes) (k : Nat) : Out Bytes :=
   if k = 0 then .panic else .ok (pad msg k)
 
-/-- `UnpadMessage(padded)`. With `guard = false` (pinned tree) `end := uint64(varintLen) + msgLen`
-may wrap around; then `end ≤ len(padded)` passes and the slice expression
-`padded[varintLen:end]` panics ("slice bounds out of range") because `end < varintLen`.
-With `guard = true` (proposed fix) the length is compared without the addition. -/
+/-- `UnpadMessage(padded)`. `guard = true` is the code since 32710c6: the length is compared without
+an addition. `guard = false` is the code before: `end := uint64(varintLen) + msgLen` may wrap
+around; then `end ≤ len(padded)` passes and the slice expression `padded[varintLen:end]` panics
+("slice bounds out of range") because `end < varintLen`. -/
 def unpad (guard : Bool) (padded : Bytes) : Out Bytes :=
   let (msgLen, n) := uvarint padded
   if n ≤ 0 then .err .varint
